@@ -102,6 +102,12 @@ def _replay(task):
                 os.unlink(p)
         except Exception as e:  # noqa
             return "step %d %s raised %s: %s" % (k, op, type(e).__name__, str(e)[:100])
+        # observers between the steps: reading a getter must never change what later calls see (a cached conversion would)
+        if variant % 4 != 3:
+            try:
+                _ = (t.unitcell_vectors, t.unitcell_lengths, t.unitcell_angles, t.unitcell_volumes if (t.unitcell_lengths is None) == (t.unitcell_angles is None) else None)
+            except Exception:
+                pass
     # ---- projection vs specification state ---------------------------------------------------------
     L, A, n = tr["L"], tr["A"], tr["n"]
     try:
